@@ -37,7 +37,8 @@ class AbstractDiscreteTimeOnlineInterpreter(AbstractOnlineInterpreter, DiscreteT
 
 
         out = self.ast.var_object_dict[self.ast.out_var]
-        if self.ast.out_var_field:
+        # (when the formula reads another field of the same variable, `out` is the object the caller supplied: it is not written to)
+        if self.ast.out_var_field and self.ast.out_var not in self.ast.free_vars:
             # (the field may be nested: out.inner.v)
             fields = self.ast.out_var_field.split('.')
             setattr(operator.attrgetter('.'.join(fields[:-1]))(out) if fields[:-1] else out, fields[-1], rob)
